@@ -22,10 +22,11 @@ Reset == /\ Ev("reset")
   /\ aFC' = [s \in Streams |-> 0] /\ aFCc' = 0 /\ aCred' = [s \in Streams |-> 0] /\ aCredC' = 0
   /\ sentLog' = [s \in Streams |-> <<>>] /\ dlvLog' = [s \in Streams |-> <<>>]
   /\ nSend' = 0 /\ nCtl' = 0 /\ hcount' = 0 /\ encOrder' = <<>> /\ dlvOrder' = <<>>
+  /\ pings' = {} /\ goneAway' = "no"
   /\ pendA' = <<>> /\ seenCred' = [s \in Streams |-> 0] /\ seenCredC' = 0
 
 \* --- logged: A hands a frame to the wire
-LogA == /\ (Ev("a_data") \/ Ev("a_headers") \/ Ev("a_cont") \/ Ev("a_rst"))
+LogA == /\ (Ev("a_data") \/ Ev("a_headers") \/ Ev("a_cont") \/ Ev("a_rst") \/ Ev("a_push") \/ Ev("a_prio") \/ Ev("a_ping") \/ Ev("a_goaway"))
         /\ pendA' = Append(pendA, T)
         /\ UNCHANGED <<vars, seenCred, seenCredC>>
 \* --- unlogged: relayFrames reads it and processFrame runs
@@ -34,7 +35,11 @@ ProcA == /\ pendA # <<>> /\ pendA' = Tail(pendA)
               CASE e.ev = "a_data"    -> ASendData(e.s, e.n, e.pad, e.es)
                 [] e.ev = "a_headers" -> IF e.open THEN ASendHeadersOpen(e.s, e.es) ELSE ASendHeaders(e.s, e.es)
                 [] e.ev = "a_cont"    -> AContinuation
-                [] e.ev = "a_rst"     -> ASendRst(e.s)
+                [] e.ev = "a_rst"     -> ASendRst(e.s, e.n)
+                [] e.ev = "a_push"    -> ASendPush(e.s, e.n)
+                [] e.ev = "a_prio"    -> ASendPrio(e.s)
+                [] e.ev = "a_ping"    -> ASendPing(e.n)
+                [] e.ev = "a_goaway"  -> ASendGoAway
          /\ UNCHANGED <<l, seenCred, seenCredC>>
 \* --- logged: B sends a control frame
 LogB == /\ Ev("b_ctl") /\ BCtl([t |-> T.t, s |-> T.s, v |-> T.v])
@@ -44,6 +49,10 @@ LogRecv == /\ Ev("b_recv") /\ out # <<>>
            /\ Head(out).t = T.t /\ Head(out).s = T.s /\ Head(out).n = T.n /\ Head(out).es = T.es
            /\ WriterSend
            /\ UNCHANGED <<pendA, seenCred, seenCredC>>
+\* --- logged: B receives a connection-level frame the sender issued
+LogConn == /\ \/ (Ev("b_ping") /\ BRecvPing(T.n))
+              \/ (Ev("b_goaway") /\ BRecvGoAway)
+           /\ UNCHANGED <<pendA, seenCred, seenCredC>>
 \* --- logged: A receives WINDOW_UPDATE from the relay; never more than the relay owes
 LogCredit == /\ Ev("a_credit")
              /\ IF T.s = 0 THEN /\ seenCredC' = seenCredC + T.n /\ seenCredC' <= aCredC /\ UNCHANGED seenCred
@@ -52,6 +61,7 @@ LogCredit == /\ Ev("a_credit")
              /\ UNCHANGED <<vars, pendA>>
 \* --- logged: the harness declares quiescence: everything must have been explained
 LogQuiet == /\ Ev("quiet") /\ pendA = <<>> /\ ctl = <<>> /\ out = <<>>
+            /\ pings = {} /\ goneAway # "sent"                                   \* PING / GOAWAY were relayed (C10)
             /\ seenCredC = aFCc /\ \A s \in Streams : seenCred[s] = aFC[s]      \* all credit returned (C09)
             /\ \A s \in Streams : q[s] = <<>> => dlvLog[s] = sentLog[s]          \* nothing lost (C10)
             /\ UNCHANGED <<vars, pendA, seenCred, seenCredC>>
@@ -59,7 +69,7 @@ Silent == /\ UNCHANGED <<l, seenCred, seenCredC>>
           /\ \/ ProcA
              \/ (ApplyCtl /\ UNCHANGED pendA)
 
-TNext == Reset \/ LogA \/ LogB \/ LogRecv \/ LogCredit \/ LogQuiet \/ Silent
+TNext == Reset \/ LogA \/ LogB \/ LogRecv \/ LogConn \/ LogCredit \/ LogQuiet \/ Silent
 TSpec == TInit /\ [][TNext]_tvars
 HWM == IF l > TLCGet(1) THEN TLCSet(1, l) ELSE TRUE
 Accepted == PrintT(<<"HWM", TLCGet(1) - 1, "of", Len(TraceLog)>>) /\ TLCGet(1) = Len(TraceLog) + 1
